@@ -18,7 +18,7 @@ import (
 
 func init() {
 	register(&Rule{Name: "R-LOOP-EOF", Min: 5,
-		Doc: "every loop of the parser package that consumes input (calls the rune reader) has an exit edge controlled by a comparison of the value just read with the end-of-input sentinel",
+		Doc: "every loop of the parser package that consumes input (calls the rune reader) has an exit edge controlled by a comparison of the value just read with the end-of-input sentinel, or by a first-party character-class test of that value which, evaluated for the sentinel, takes the exit",
 		Run: runLoopEOF})
 }
 
@@ -53,11 +53,27 @@ func findScannerReader(p *Program) *readerInfo {
 			if errV == nil {
 				continue
 			}
+			// the error may be merged with that of another read of the same reader
+			errVs := []ssa.Value{errV}
+			for _, u := range *errV.Referrers() {
+				if ph, ok := u.(*ssa.Phi); ok {
+					errVs = append(errVs, ph)
+				}
+			}
 			view := p.View(fn)
 			for _, b := range view.Blocks() {
 				ins := view.Instrs(b)
 				ret, ok := ins[len(ins)-1].(*ssa.Return)
-				if !ok || len(ret.Results) != 1 || !view.holdsAt(b, errV, factNonNil) {
+				if !ok || len(ret.Results) != 1 {
+					continue
+				}
+				onErr := false
+				for _, ev := range errVs {
+					if view.holdsAt(b, ev, factNonNil) {
+						onErr = true
+					}
+				}
+				if !onErr {
 					continue
 				}
 				ri = &readerInfo{Read: fn}
@@ -156,6 +172,57 @@ func (ri *readerInfo) comparesWithSentinel(cond ssa.Value, val ssa.Value) bool {
 	return (match(bo.X) && ri.isSentinel(bo.Y)) || (match(bo.Y) && ri.isSentinel(bo.X))
 }
 
+// matchesRead: x is `val` (or, when val is nil, the result of any call of the reader) or a
+// phi with such an edge.
+func (ri *readerInfo) matchesRead(x ssa.Value, val ssa.Value) bool {
+	isRead := func(e ssa.Value) bool {
+		c, ok := e.(*ssa.Call)
+		return ok && c.Common().StaticCallee() == ri.Read
+	}
+	if x == val || (val == nil && isRead(x)) {
+		return true
+	}
+	if ph, ok := x.(*ssa.Phi); ok {
+		for _, e := range ph.Edges {
+			if e == val || (val == nil && isRead(e)) {
+				return true
+			}
+		}
+	}
+	return false
+}
+
+// classifierExit: the block ends in a test `f(v)` (possibly negated) of a first-party
+// predicate over the value read, and f, evaluated for the end-of-input sentinel, folds to
+// a constant. Returns the index of the successor taken for the sentinel, or -1.
+func (ri *readerInfo) classifierExit(p *Program, cond ssa.Value, val ssa.Value) int {
+	neg := false
+	for {
+		if u, ok := cond.(*ssa.UnOp); ok && u.Op == token.NOT {
+			cond, neg = u.X, !neg
+			continue
+		}
+		break
+	}
+	c, ok := cond.(*ssa.Call)
+	if !ok || ri.SentinelVal == nil {
+		return -1
+	}
+	sc := c.Common().StaticCallee()
+	if sc == nil || sc.Blocks == nil || !p.isFirstParty(sc) || len(c.Common().Args) != 1 || !ri.matchesRead(c.Common().Args[0], val) {
+		return -1
+	}
+	res := NewEvaluator(p).Eval(sc, []AVal{aConst(ri.SentinelVal)})
+	b, known := res.Ret.IsBool()
+	if !known || res.Panics {
+		return -1
+	}
+	if b != neg {
+		return 0
+	}
+	return 1
+}
+
 func runLoopEOF(p *Program, r *RuleResult) {
 	ri := findScannerReader(p)
 	r.note("input reader: %s; sentinel: %v", fnName(ri.Read), func() string {
@@ -196,7 +263,15 @@ func runLoopEOF(p *Program, r *RuleResult) {
 						continue
 					}
 					iff, ok := ins[len(ins)-1].(*ssa.If)
-					if !ok || !ri.comparesWithSentinel(iff.Cond, val) {
+					if !ok {
+						continue
+					}
+					if !ri.comparesWithSentinel(iff.Cond, val) {
+						// a character-class test that the sentinel takes towards the outside
+						// of the loop ends it at end of input just as well
+						if k := ri.classifierExit(p, iff.Cond, val); k >= 0 && k < len(b.Succs) && !l.Body[b.Succs[k]] {
+							return true
+						}
 						continue
 					}
 					for _, s := range view.Succs(b) {
